@@ -148,6 +148,39 @@ func (h *NFSProcedureHandler) handleFsstat(body io.Reader, reply *RPCReply, auth
 	return reply, nil
 }
 
+// rpcCallReserve is the room kept in a maximum-size RPC record for everything
+// that surrounds the data of a WRITE call: the RPC call header (24 bytes), the
+// credential and the verifier (8 bytes plus up to MAX_RPC_AUTH_LENGTH each) and
+// the fixed part of WRITE3args (32 bytes).
+const rpcCallReserve = 1024
+
+// transferLimits returns the maximum, preferred and multiple transfer sizes that
+// FSINFO advertises for READ and WRITE. The maximum is what a single call is
+// really served with: the configured TransferSize (handleWrite refuses larger
+// counts, READ returns at most that much), bounded by what fits into one RPC
+// record (DefaultMaxRecordSize) together with the call overhead. The preferred
+// size and the multiple never exceed the maximum.
+func (h *NFSProcedureHandler) transferLimits() (max, pref, mult uint32) {
+	t := h.server.handler.tuning.Load().TransferSize
+	if t <= 0 {
+		t = 65536
+	}
+	if limit := DefaultMaxRecordSize - rpcCallReserve; t > limit {
+		t = limit
+	}
+	mult = 4096
+	if t >= 4096 {
+		t -= t % 4096
+	} else {
+		mult = uint32(t)
+	}
+	pref = 65536
+	if pref > uint32(t) {
+		pref = uint32(t)
+	}
+	return uint32(t), pref, mult
+}
+
 // handleFsinfo handles NFSPROC3_FSINFO - get filesystem info
 func (h *NFSProcedureHandler) handleFsinfo(body io.Reader, reply *RPCReply, authCtx *AuthContext) (*RPCReply, error) {
 	handleVal, err := xdrDecodeFileHandle(body)
@@ -173,12 +206,14 @@ func (h *NFSProcedureHandler) handleFsinfo(body io.Reader, reply *RPCReply, auth
 		return nfsErrorWithPostOp(reply, NFSERR_IO), nil
 	}
 
-	binary.Write(&buf, binary.BigEndian, uint32(1048576))       // rtmax
-	binary.Write(&buf, binary.BigEndian, uint32(65536))         // rtpref
-	binary.Write(&buf, binary.BigEndian, uint32(4096))          // rtmult
-	binary.Write(&buf, binary.BigEndian, uint32(1048576))       // wtmax
-	binary.Write(&buf, binary.BigEndian, uint32(65536))         // wtpref
-	binary.Write(&buf, binary.BigEndian, uint32(4096))          // wtmult
+	// Advertise what READ and WRITE really serve (see transferLimits)
+	tmax, tpref, tmult := h.transferLimits()
+	binary.Write(&buf, binary.BigEndian, tmax)                  // rtmax
+	binary.Write(&buf, binary.BigEndian, tpref)                 // rtpref
+	binary.Write(&buf, binary.BigEndian, tmult)                 // rtmult
+	binary.Write(&buf, binary.BigEndian, tmax)                  // wtmax
+	binary.Write(&buf, binary.BigEndian, tpref)                 // wtpref
+	binary.Write(&buf, binary.BigEndian, tmult)                 // wtmult
 	binary.Write(&buf, binary.BigEndian, uint32(8192))          // dtpref (C1: uint32 not uint64)
 	binary.Write(&buf, binary.BigEndian, uint64(1099511627776)) // maxfilesize
 	binary.Write(&buf, binary.BigEndian, uint32(0))             // time_delta.seconds
